@@ -585,6 +585,28 @@ impl Build for U_S1 {
     }
 }
 
+impl Build for U_S6 {
+    const NSEL: u8 = 1;
+    fn canon(v: &AnyV) -> Canon {
+        let mut c = Canon::new();
+        c.put(v.a);
+        c.put(v.c as u8);
+        c.put((v.c >> 8) as u8);
+        c.put16(v.b);
+        canon_vec_u8(&mut c, v);
+        c
+    }
+    fn need(v: &AnyV) -> usize {
+        ce(7 + v.m, 2)
+    }
+    fn emplace<'a>(v: &AnyV, bytes: &'a mut [u8]) -> Result<&'a mut US6, Error> {
+        with_vec_emplacer!(v, |e| US6::new_in_place(bytes, US6Init { a: v.a, b: [v.c as u8, (v.c >> 8) as u8], c: v.b, d: e }))
+    }
+    fn assign<'a>(v: &AnyV, t: &'a mut US6) -> Result<&'a mut US6, Error> {
+        with_vec_emplacer!(v, |e| t.assign_in_place(US6Init { a: v.a, b: [v.c as u8, (v.c >> 8) as u8], c: v.b, d: e }))
+    }
+}
+
 impl Build for U_S2 {
     const NSEL: u8 = 1;
     fn canon(v: &AnyV) -> Canon {
